@@ -27,6 +27,21 @@ def main():
             b.release()
         print(v, json.dumps(detail, default=str)[:2000])
         sys.exit(1 if v == "reproduced" else 0)
+    if a.id == "PREBUILD":
+        # make the build of the current working tree available to the checks (in place if current, else the scratch cache)
+        b = common.Build()
+        print("build of the current tree:", b.acquire())
+        b.release()
+        sys.exit(0)
+    if a.id == "CLEAN":
+        import glob
+        import shutil
+        for d in glob.glob(os.path.join(common.SCRATCH_ROOT, "bioscrape-verif-build-*")):
+            if os.path.isdir(d):
+                shutil.rmtree(d, ignore_errors=True)
+            else:
+                os.remove(d)
+        sys.exit(0)
     if a.id == "ALL":
         rc = 0
         ids = ["C%02d" % i for i in range(1, 21)]
